@@ -88,8 +88,14 @@ func (c *ShipConnection) setState(newState model.ShipMessageExchangeState, err e
 // a connection closed by another goroutine (the loser of a double connection, a disconnect
 // by the user) while a message is processed must not overwrite with its progress, abort
 // or error states what the hub knows about the service from a connection that lives
+//
+// closing waits for a report that is being delivered: once CloseConnection has reported the
+// end, no state of this connection (e.g. hello ok, which trusts the service) arrives anymore
 func (c *ShipConnection) reportState(state model.ShipState) {
-	if c.isCloseReported() {
+	c.reportMux.Lock()
+	defer c.reportMux.Unlock()
+
+	if c.closeReported {
 		return
 	}
 
@@ -307,15 +313,15 @@ func (c *ShipConnection) disableHandshakeTimer() {
 
 // the end of the connection is about to be reported
 func (c *ShipConnection) setCloseReported() {
-	c.handshakeTimerMux.Lock()
+	c.reportMux.Lock()
 	c.closeReported = true
-	c.handshakeTimerMux.Unlock()
+	c.reportMux.Unlock()
 }
 
 // reports if the end of the connection has been reported
 func (c *ShipConnection) isCloseReported() bool {
-	c.handshakeTimerMux.Lock()
-	defer c.handshakeTimerMux.Unlock()
+	c.reportMux.Lock()
+	defer c.reportMux.Unlock()
 
 	return c.closeReported
 }
